@@ -1,7 +1,8 @@
 ENTRY = {
     "level": "proof",
     "families": [fam("C05", 400, 12000)],
-    "gen_items": ["BinaryOp", "flip_op", "eval_range", "eval_range_i32", "eval_range_f64", "eval_range_str", "definite_table"],
+    "gen_items": ["BinaryOp", "flip_op", "eval_range", "eval_range_i32", "eval_range_f64", "eval_range_str", "definite_table", "definite_table_int"],
+    "extra_props": ["IQE.Props.C05Gen"],
     "rule": "each case = one REAL Parquet file written by the harness (1-3 columns of int64 / int32 / double / utf8 / date32, 1-4 row groups written one by one, "
             "1-5 rows each, NULL density 0 / 25 / 100 %, one column in twelve without statistics) x 8 predicates of depth 0..2 over comparison with the literal on "
             "either side (own-type and coerced literal types: Int32/Date32 literal vs Int64 column, Int64 vs Int32, Float64 vs integer and reverse), [NOT] BETWEEN, "
